@@ -450,8 +450,11 @@ func conclude(p *Prop, tier string, seed int64, m *Merged) int {
 			l = append(l, e)
 		}
 		sort.Strings(l)
-		cov[k] = l
 		cov[k+"_count"] = len(l)
+		if len(l) > 400 {
+			l = append(l[:400:400], fmt.Sprintf("… (%d more)", len(l)-400))
+		}
+		cov[k] = l
 	}
 	if m.Samples == nil {
 		cov["samples"] = []any{}
